@@ -626,6 +626,7 @@ func main() {
 	proto := flag.String("proto", "tcp", "internal: what the wire log records")
 	flag.StringVar(&listenRedirect, "redirect", "", "internal: the listeners answer <code>:<Location>")
 	flag.BoolVar(&listenTLS, "tls", false, "internal: the redirecting listeners speak TLS")
+	flag.IntVar(&sniffInject, "inject", 0, "internal: the wire log answers that many TCP probes with a malformed SYN+ACK")
 	flag.IntVar(&sniffMark, "mark", 0, "internal: the wire log marks when it has seen that many probes")
 	listenPorts := flag.String("listen", "", "internal: accept connections on these ports and log them")
 	sx := flag.String("e2e", "", "end-to-end runs with this sx binary in private network namespaces")
